@@ -62,8 +62,34 @@ fn rand_out_type(rng: &mut Rng) -> Type {
             ("a".to_string(), array_type(vec![rng.range(1, 300)], UINT8)),
             ("b".to_string(), scalar_type(BIT)),
         ]),
-        8 => array_type(vec![16], UINT8),
+        8 => {
+            if rng.chance(1, 2) {
+                array_type(vec![16], UINT8)
+            } else {
+                // several KiB: long enough for keystreams of neighbouring counters to meet if they are
+                // laid out closer than they should be
+                array_type(vec![rng.range(150, 1200)], UINT64)
+            }
+        }
         _ => array_type(vec![rng.range(1, 5), rng.range(1, 5)], st),
+    }
+}
+
+/// byte buffers of the leaves of a value
+fn leaf_bytes(v: &Value, out: &mut Vec<Vec<u8>>) {
+    let sub: Option<Vec<Value>> = v
+        .access(
+            |b| {
+                out.push(b.to_vec());
+                Ok(None)
+            },
+            |vs| Ok(Some(vs.clone())),
+        )
+        .unwrap_or(None);
+    if let Some(vs) = sub {
+        for x in vs.iter() {
+            leaf_bytes(x, out);
+        }
     }
 }
 
@@ -96,13 +122,18 @@ pub fn run(ctx: &mut Ctx) {
             .collect();
         let n_nodes = ctx.rng.range(6, 40) as usize;
         let mut prf_nodes: Vec<(Node, usize, u64, String, Option<u64>, Type)> = vec![];
-        let ivs: Vec<u64> = (0..4)
+        let mut ivs: Vec<u64> = (0..4)
             .map(|_| match ctx.rng.below(4) {
                 0 => ctx.rng.below(4),
                 1 => u64::MAX - ctx.rng.below(3),
                 _ => ctx.rng.next_u64(),
             })
             .collect();
+        if ctx.rng.chance(1, 2) {
+            // neighbouring counters
+            ivs[1] = ivs[0].wrapping_add(1);
+            ivs[2] = ivs[0].wrapping_add(ctx.rng.range(2, 5));
+        }
         let types: Vec<Type> = (0..3).map(|_| rand_out_type(&mut ctx.rng)).collect();
         for _ in 0..n_nodes {
             let k = ctx.rng.usize(nkeys);
@@ -221,6 +252,46 @@ pub fn run(ctx: &mut Ctx) {
                                    "type": ty, "a": format!("key {} iv {}", hex(&lst[i].0 .0), lst[i].0 .1),
                                    "b": format!("key {} iv {}", hex(&lst[j].0 .0), lst[j].0 .1)}),
                         );
+                    }
+                }
+            }
+        }
+        // unrelated values: no 16-byte window of one output occurs in another output (or twice in the
+        // same one) - with 128 random bits per window a repeat is a relation, not chance
+        {
+            let mut windows: HashMap<[u8; 16], (usize, usize)> = HashMap::new();
+            let entries: Vec<(&(Vec<u8>, u64, String), &Value)> =
+                model.iter().filter(|(k, _)| !k.2.starts_with("perm")).collect();
+            let mut reported = false;
+            for (ei, (k, v)) in entries.iter().enumerate() {
+                let mut leaves: Vec<Vec<u8>> = vec![];
+                leaf_bytes(v, &mut leaves);
+                for leaf in leaves.iter() {
+                    if leaf.len() < 16 {
+                        continue;
+                    }
+                    for off in 0..=(leaf.len() - 16) {
+                        let w: [u8; 16] = leaf[off..off + 16].try_into().unwrap();
+                        ctx.count("stream_windows_compared", 1);
+                        if let Some((ej, off2)) = windows.get(&w) {
+                            let other = entries[*ej].0;
+                            if *ej != ei && other.0 == k.0 && other.1 == k.1 {
+                                // same key and counter, another output type: the same keystream, by design
+                                ctx.count("same_stream_windows", 1);
+                            } else if !reported {
+                                reported = true;
+                                let other = entries[*ej].0;
+                                ctx.violation(
+                                    if *ej == ei { "C15|stream_repeats" } else { "C15|related_outputs" },
+                                    json!({"what": "the same 16 bytes occur in the PRF outputs of two different (key, counter, type) triples: the values are related",
+                                           "a": format!("key {} iv {} type {} offset {}", hex(&other.0), other.1, other.2, off2),
+                                           "b": format!("key {} iv {} type {} offset {}", hex(&k.0), k.1, k.2, off),
+                                           "bytes": hex(&w)}),
+                                );
+                            }
+                        } else {
+                            windows.insert(w, (ei, off));
+                        }
                     }
                 }
             }
